@@ -45,29 +45,31 @@ theorem determineIndex_right (nd : Node) (A B : List Nat) (next n : Nat) (hL : n
 /-- one loop iteration with a known tensor leg -/
 theorem contractNeighbourBlock_step (axis : Nat) (mk : Nat → Leg) (blk : Nat → T) (bl : Nat → Leg)
     (cache : Cache) (nd : Node) (n : Nat) (P Q : List Leg) (bs : List (Leg × Leg))
-    (hc : cache n = some (blk n)) (hb : (blk n).legs[axis]? = some (bl n)) (hbb : (blk n).binds = []) :
+    (hc : cache n = some (blk n)) (hb : (blk n).legs[axis]? = some (bl n)) :
     contractNeighbourBlock axis ⟨P ++ mk n :: Q, bs⟩ nd n cache (some P.length) =
-      some ⟨P ++ Q ++ (blk n).legs.eraseIdx axis, bs ++ [(mk n, bl n)]⟩ := by
+      some ⟨P ++ Q ++ (blk n).legs.eraseIdx axis, bs ++ ((blk n).binds ++ [(mk n, bl n)])⟩ := by
   simp only [contractNeighbourBlock, hc]
   rw [tensordot_one _ _ _ _ (mk n) (bl n) (by simp) hb]
-  simp [eraseIdx_append_mid, hbb]
+  simp [eraseIdx_append_mid]
 
 theorem allButOneLoop_seg (axis : Nat) (mk : Nat → Leg) (blk : Nat → T) (bl : Nat → Leg)
     (cache : Cache) (nd : Node) (next : Nat) (P : List Leg) (seg : List Nat) (R : List Leg)
     (bs : List (Leg × Leg))
     (h : ∀ n ∈ seg, n ≠ next ∧ determineIndexWithIgnoredLeg nd n next = some P.length ∧
-      cache n = some (blk n) ∧ (blk n).legs[axis]? = some (bl n) ∧ (blk n).binds = []) :
+      cache n = some (blk n) ∧ (blk n).legs[axis]? = some (bl n)) :
     allButOneLoop axis nd next cache seg ⟨P ++ seg.map mk ++ R, bs⟩ =
-      some ⟨P ++ R ++ seg.flatMap (fun n => (blk n).legs.eraseIdx axis), bs ++ seg.map (fun n => (mk n, bl n))⟩ := by
+      some ⟨P ++ R ++ seg.flatMap (fun n => (blk n).legs.eraseIdx axis),
+            bs ++ seg.flatMap (fun n => (blk n).binds ++ [(mk n, bl n)])⟩ := by
   induction seg generalizing R bs with
   | nil => simp [allButOneLoop]
   | cons n rest ih =>
-    obtain ⟨hne, hdet, hc, hb, hbb⟩ := h n (by simp)
+    obtain ⟨hne, hdet, hc, hb⟩ := h n (by simp)
     simp only [allButOneLoop, hne, ne_eq, not_false_eq_true, if_true, contractNeighbourBlockIgnoreOneLeg, hdet]
-    have hstep := contractNeighbourBlock_step axis mk blk bl cache nd n P (rest.map mk ++ R) bs hc hb hbb
+    have hstep := contractNeighbourBlock_step axis mk blk bl cache nd n P (rest.map mk ++ R) bs hc hb
     simp only [List.map_cons, List.cons_append, List.append_assoc] at hstep ⊢
     rw [hstep]
-    have := ih (R ++ (blk n).legs.eraseIdx axis) (bs ++ [(mk n, bl n)]) (fun m hm => h m (by simp [hm]))
+    have := ih (R ++ (blk n).legs.eraseIdx axis) (bs ++ ((blk n).binds ++ [(mk n, bl n)]))
+      (fun m hm => h m (by simp [hm]))
     simp only [List.append_assoc] at this
     dsimp only
     rw [this]
@@ -103,10 +105,10 @@ theorem filter_ne_mid (A B : List Nat) (x : Nat) (hA : x ∉ A) (hB : x ∉ B) :
 theorem allButOne_general (axis : Nat) (mk : Nat → Leg) (blk : Nat → T) (bl : Nat → Leg) (tail : List Leg)
     (cache : Cache) (nd : Node) (next : Nat) (hnd : nd.nbrs.Nodup) (hnext : next ∈ nd.nbrs)
     (h : ∀ n ∈ nd.nbrs, n ≠ next →
-      cache n = some (blk n) ∧ (blk n).legs[axis]? = some (bl n) ∧ (blk n).binds = []) :
+      cache n = some (blk n) ∧ (blk n).legs[axis]? = some (bl n)) :
     allButOneLoop axis nd next cache nd.nbrs (T.fresh (nd.nbrs.map mk ++ tail)) =
       some ⟨mk next :: tail ++ (nd.nbrs.filter (· ≠ next)).flatMap (fun n => (blk n).legs.eraseIdx axis),
-            (nd.nbrs.filter (· ≠ next)).map (fun n => (mk n, bl n))⟩ := by
+            (nd.nbrs.filter (· ≠ next)).flatMap (fun n => (blk n).binds ++ [(mk n, bl n)])⟩ := by
   obtain ⟨A, B, hL⟩ := List.append_of_mem hnext
   have hnd' := hnd
   rw [hL] at hnd'
@@ -116,7 +118,8 @@ theorem allButOne_general (axis : Nat) (mk : Nat → Leg) (blk : Nat → T) (bl 
       have hne : n ≠ next := fun e => hxA (e ▸ hn)
       exact ⟨hne, determineIndex_left nd A B next n hL hnd hn, h n (by simp [hL, hn]) hne⟩)
   have hB := allButOneLoop_seg axis mk blk bl cache nd next [mk next] B
-    (tail ++ A.flatMap (fun n => (blk n).legs.eraseIdx axis)) (A.map (fun n => (mk n, bl n)))
+    (tail ++ A.flatMap (fun n => (blk n).legs.eraseIdx axis))
+    (A.flatMap (fun n => (blk n).binds ++ [(mk n, bl n)]))
     (fun n hn => by
       have hne : n ≠ next := fun e => hxB (e ▸ hn)
       exact ⟨hne, determineIndex_right nd A B next n hL hnd hn, h n (by simp [hL, hn]) hne⟩)
@@ -129,17 +132,19 @@ theorem allButOne_general (axis : Nat) (mk : Nat → Leg) (blk : Nat → T) (bl 
 
 theorem allLoop_general (axis : Nat) (mk : Nat → Leg) (blk : Nat → T) (bl : Nat → Leg)
     (cache : Cache) (nd : Node) (seg : List Nat) (R : List Leg) (bs : List (Leg × Leg))
-    (h : ∀ n ∈ seg, cache n = some (blk n) ∧ (blk n).legs[axis]? = some (bl n) ∧ (blk n).binds = []) :
+    (h : ∀ n ∈ seg, cache n = some (blk n) ∧ (blk n).legs[axis]? = some (bl n)) :
     allLoop axis nd cache seg ⟨seg.map mk ++ R, bs⟩ =
-      some ⟨R ++ seg.flatMap (fun n => (blk n).legs.eraseIdx axis), bs ++ seg.map (fun n => (mk n, bl n))⟩ := by
+      some ⟨R ++ seg.flatMap (fun n => (blk n).legs.eraseIdx axis),
+            bs ++ seg.flatMap (fun n => (blk n).binds ++ [(mk n, bl n)])⟩ := by
   induction seg generalizing R bs with
   | nil => simp [allLoop]
   | cons n rest ih =>
-    obtain ⟨hc, hb, hbb⟩ := h n (by simp)
-    have hstep := contractNeighbourBlock_step axis mk blk bl cache nd n [] (rest.map mk ++ R) bs hc hb hbb
+    obtain ⟨hc, hb⟩ := h n (by simp)
+    have hstep := contractNeighbourBlock_step axis mk blk bl cache nd n [] (rest.map mk ++ R) bs hc hb
     simp only [List.nil_append, List.length_nil] at hstep
     simp only [allLoop, List.map_cons, List.cons_append, hstep, List.append_assoc]
-    have := ih (R ++ (blk n).legs.eraseIdx axis) (bs ++ [(mk n, bl n)]) (fun m hm => h m (by simp [hm]))
+    have := ih (R ++ (blk n).legs.eraseIdx axis) (bs ++ ((blk n).binds ++ [(mk n, bl n)]))
+      (fun m hm => h m (by simp [hm]))
     simp only [List.append_assoc] at this
     rw [this]
     simp
